@@ -7,6 +7,8 @@ from rules import equiv, mutants, extract
 from concurrent.futures import ThreadPoolExecutor
 man = json.load(open(os.path.join(V, "MANIFEST.json")))
 props = [c["property_id"] for c in man["checks"]] + [x for x in os.environ.get("EXTRA_PROPS","").split(",") if x]
+if os.environ.get("ONLY_PROPS"):
+    props = [x for x in os.environ["ONLY_PROPS"].split(",") if x]  # after a rule change of a few properties
 only = sys.argv[1:]
 def one(m):
     if only and m["_name"] not in only:
@@ -27,7 +29,7 @@ def one(m):
         return (m["_name"], "silent" if not bad else "FALSE-ALARM", bad)
     finally:
         shutil.rmtree(scratch, ignore_errors=True)
-with ThreadPoolExecutor(max_workers=5) as ex:
+with ThreadPoolExecutor(max_workers=int(os.environ.get("WORKERS", "5"))) as ex:
     for r in ex.map(one, equiv.load()):
         if r:
             print(r[0], "->", r[1])
